@@ -201,7 +201,10 @@ class Calls(Exec):
         sup = node.func.value
         if len(sup.args) != 2 or node.func.attr != '__init__':
             raise Unsupported('super() form', node)
-        cname = sup.args[0].id
+        r0 = loader.resolve(st.frame.module, sup.args[0].id)
+        cname = REG.class_name(r0[1], r0[2]) if r0 and r0[0] == 'class' else None
+        if cname is None:
+            raise Unsupported('super() in class without contract: ' + sup.args[0].id, node)
         plain = [a.value if isinstance(a, ast.Starred) else a for a in node.args]
 
         def after(s, vs):
@@ -215,12 +218,13 @@ class Calls(Exec):
             cc = REG.classes.get(cname)
             if cc is None:
                 raise Unsupported('super() in class without contract: ' + cname, node)
-            ci = loader.find_class(cc.module, cname)
+            ci = loader.find_class(cc.module, cc.real)
             m = loader.load(cc.module)
             for b in ci.bases:
                 r = loader.resolve(m, b)
                 if r and r[0] == 'class':
-                    key, _ = self.find_method(r[2], '__init__')
+                    bn = REG.class_name(r[1], r[2])
+                    key, _ = self.find_method(bn, '__init__') if bn else (None, None)
                     if key:
                         return [(s2, NONE) for s2, _ in self.call_inline(s, key, [selfv] + args, {}, node)]
                 if b == 'Exception':
@@ -229,10 +233,11 @@ class Calls(Exec):
         return self.bind(self.ev_list([sup.args[1]] + plain, st), after)
 
     def construct(self, st, cv, args, kwargs, node):
-        if cv.name not in REG.classes:
-            raise Unsupported('constructor of class %s (no class contract)' % cv.name, node)
-        obj = self.new_object(st, cv.name)
-        key, _ = self.find_method(cv.name, '__init__')
+        cname = REG.class_name(cv.module, cv.name)
+        if cname is None:
+            raise Unsupported('constructor of class %s.%s (no class contract)' % (cv.module, cv.name), node)
+        obj = self.new_object(st, cname)
+        key, _ = self.find_method(cname, '__init__')
         if key is None:
             return [(st, obj)]
         c = REG.fns.get(key)
@@ -586,6 +591,12 @@ class Calls(Exec):
             m = self.ev1(a[0], st)
             ch = self.ev1(a[1], st)
             return VBool(self.holds(st, m, ch, node))
+        if name == 'numshape':
+            sv = self.ev1(a[0], st)
+            lo = self.ev1(a[1], st).t
+            hi = self.ev1(a[2], st).t
+            arr, off, n = str_parts(self.as_str(sv))
+            return VBool(self.numshape(arr, simp(off + lo), simp(off + hi)))
         if name == 'chars_hold':
             # chars_hold(s, a, b, m): every character s[i], a <= i < b, is accepted by the matcher m;
             # encoded over absolute array positions (see all_decimal)
@@ -749,10 +760,13 @@ class Calls(Exec):
 
     def isinstance_(self, st, v, cv, node):
         if isinstance(cv, VClass):
+            cname = REG.class_name(cv.module, cv.name)
             if isinstance(v, VRef):
-                if REG.is_subclass(v.cls, cv.name):
+                if cname is None:
+                    raise Unsupported('isinstance against class without contract: ' + cv.name, node)
+                if REG.is_subclass(v.cls, cname):
                     return TRUE
-                return self.class_is(st, v.t, cv.name)
+                return self.class_is(st, v.t, cname)
             return FALSE
         if isinstance(cv, VFn) and cv.what[0] == 'builtin':
             n = cv.what[1]
@@ -808,13 +822,45 @@ class Calls(Exec):
             raise PathDead()
         raise Unsupported('int() of ' + v.kind, node)
 
+    def numshape(self, arr, lo, hi):
+        """the characters arr[lo:hi] have the shape  -?d+ | -?d+. | -?d+.d+ | -?.d+   (d = str.isdecimal).
+        Existential over the two split points (end of sign, end of integer part); absolute positions."""
+        USED_CHAR_AXIOMS[0] = True
+        a = fresh_int('ns_a')
+        p = fresh_int('ns_p')
+        k = fresh_int('qk')
+        dec = lambda x, y: z3.ForAll([k], z3.Implies(z3.And(k >= x, k < y),
+                                                      z3.And(z3.Select(arr, k) >= 0, isdecimal_uf(z3.Select(arr, k)))))
+        body = z3.And(lo <= a, a <= p, p <= hi,
+                      z3.Or(a == lo, z3.And(a == lo + 1, z3.Select(arr, lo) == ord('-'))),
+                      dec(a, p),
+                      z3.Or(p == hi, z3.And(z3.Select(arr, p) == ord('.'), dec(p + 1, hi))),
+                      # at least one digit
+                      z3.Or(p > a, hi > p + 1))
+        return z3.Exists([a, p], body)
+
     def to_float(self, st, v, node):
         if isinstance(v, (VInt, VBool)):
             return [(st, VFloat(z3.ToReal(self.num(v))))]
         if isinstance(v, VFloat):
             return [(st, v)]
         if isinstance(v, (VStr, VCh)):
-            raise Unsupported('float(str)', node)
+            v = self.as_str(v)
+            if v.lit is not None:
+                try:
+                    return [(st, VFloat(float(v.lit)))]
+                except ValueError:
+                    self.prove(st, FALSE, 'aorte', node, 'ValueError: float(%r)' % v.lit)
+                    raise PathDead()
+            self.note('A-floatstr: float(s) does not raise when s has the shape -?d+ | -?d+. | -?d+.d+ | -?.d+ with '
+                      'd = str.isdecimal (checked against CPython by the self-test)')
+            arr, off, n = str_parts(v)
+            self.prove(st, self.numshape(arr, simp(off), simp(off + n)), 'aorte', node,
+                       'ValueError: %s needs a string of number shape' % ast.unparse(node))
+            return [(st, VFloat(fresh(RealS, 'floatval')))]
+        if isinstance(v, VNone):
+            self.prove(st, FALSE, 'aorte', node, 'TypeError: float(None)')
+            raise PathDead()
         raise Unsupported('float() of ' + v.kind, node)
 
     # ------------------------------------------------------------ str methods
